@@ -525,6 +525,7 @@ func runC20(c *Ctx) {
 		c.Explore(qdScenario(qdCase{prop: "C20", ctor: ct, limit: 1, maxBacklog: 2, timeout: 50 * time.Millisecond, evict: true, maxArrive: 4, depth: c.Pick(5, 6)}), mc.Options{PreemptBound: 0})
 	}
 	c20Bundled(c)
+	c20Names(c)
 	for _, kind := range []string{"gometrics", "datadog"} {
 		c.Explore(c20Lifecycle(kind, c.Pick(6, 7)), mc.Options{PreemptBound: 0})
 		c.Explore(c20StopRace(kind), mc.Options{PreemptBound: pbStop(c)})
@@ -540,4 +541,90 @@ func pbStop(c *Ctx) int {
 		return n
 	}
 	return c.Pick(2, 3)
+}
+
+// c20Names: limits publish their metrics under "<name>.<metric>" ("default" for an empty name, no
+// doubled dot for a name that already ends in one), with the tags given at construction.
+func c20Names(c *Ctx) {
+	name := "C20/metric-names"
+	params := "limit name in {'', n, n.} x tags x {aimd, vegas, gradient, gradient2, settable, fixed}"
+	if c.replay != nil || (c.only != "" && !strings.Contains(name, c.only)) {
+		if c.replay == nil || c.replay.Scenario != name {
+			return
+		}
+	}
+	if c.replay == nil && (!c.Mine() || c.expired()) {
+		return
+	}
+	st := &mc.BFSStats{Model: name, Params: params, SigCounts: map[string]int{}, Exhaustive: true, Fixpoint: true, Depth: 1, MaxDepth: 1}
+	states := map[string]bool{}
+	fail := func(sig, format string, a ...any) {
+		st.SigCounts[sig]++
+		if st.SigCounts[sig] == 1 {
+			st.Violations = append(st.Violations, &mc.Violation{Scenario: name, Params: params, Failures: []mc.Failure{{Sig: sig, Msg: fmt.Sprintf(format, a...)}}})
+		}
+	}
+	for _, nm := range []string{"", "n", "n."} {
+		for _, tags := range [][]string{nil, {"k:v"}} {
+			mks := map[string]func(reg core.MetricRegistry) core.Limit{
+				"aimd": func(reg core.MetricRegistry) core.Limit { return limit.NewAIMDLimit(nm, 4, 0.9, 1, reg, tags...) },
+				"vegas": func(reg core.MetricRegistry) core.Limit {
+					return limit.NewDefaultVegasLimitWithLimit(nm, 4, nil, reg, tags...)
+				},
+				"settable": func(reg core.MetricRegistry) core.Limit { return limit.NewSettableLimit(nm, 4, reg, tags...) },
+				"fixed":    func(reg core.MetricRegistry) core.Limit { return limit.NewFixedLimit(nm, 4, reg, tags...) },
+				"gradient": func(reg core.MetricRegistry) core.Limit {
+					return limit.NewGradientLimitWithRegistry(nm, 4, 1, 10, 1.0, nil, 2.0, -1, nil, reg, tags...)
+				},
+				"gradient2": func(reg core.MetricRegistry) core.Limit {
+					g, _ := limit.NewGradient2Limit(nm, 4, 10, 1, nil, 1.0, 3, nil, reg, tags...)
+					return g
+				},
+			}
+			for algo, mk := range mks {
+				reg := NewRecRegistry()
+				l := mk(reg)
+				l.OnSample(0, 1e6, 3, true)
+				base := nm
+				if base == "" {
+					base = "default"
+				}
+				if !strings.HasSuffix(base, ".") {
+					base += "."
+				}
+				st.Transitions++
+				st.Nontrivial++
+				for metric, want := range map[string]float64{core.MetricRTT: 1e6, core.MetricInFlight: 3, core.MetricDropped: 1} {
+					key := mkey(base+metric, tags)
+					states[algo+key] = true
+					got := reg.Samples[key]
+					if len(got) != 1 || got[0] != want {
+						fail(algo+"/metric-name", "%s limit named %q with tags %v: sample for %q is %v (want one sample %v); keys present: %v", algo, nm, tags, key, got, want, sampleKeys(reg))
+					}
+				}
+				if g, ok := reg.Gauges[mkey(base+core.MetricLimit, tags)]; !ok {
+					fail(algo+"/limit-gauge-name", "%s limit named %q with tags %v: no gauge %q; gauges: %v", algo, nm, tags, mkey(base+core.MetricLimit, tags), reg.GaugeKeys())
+				} else if v, _ := g(); int(v) != l.EstimatedLimit() {
+					fail(algo+"/limit-gauge", "gauge reports %v, estimate %d", v, l.EstimatedLimit())
+				}
+			}
+		}
+	}
+	st.States = len(states)
+	st.Samples = append(st.Samples, []mc.Step{{Lbl: `NewAIMDLimit("", ..., tags k:v).OnSample(rtt=1e6, inflight=3, drop) -> default.rtt{k:v}, default.inflight{k:v}, default.dropped{k:v}`}})
+	if c.replay != nil {
+		for _, v := range st.Violations {
+			fmt.Printf("  FAIL [%s] %s\n", v.Failures[0].Sig, v.Failures[0].Msg)
+		}
+		return
+	}
+	c.AddBFS(st)
+}
+
+func sampleKeys(r *RecRegistry) []string {
+	var ks []string
+	for k := range r.Samples {
+		ks = append(ks, k)
+	}
+	return ks
 }
